@@ -51,6 +51,7 @@ def shards(tier):
             out.append(("evq", mk))
         out.append(("order", "pairs", 0, 1))
         out.append(("order", "mapmut", 0, 1))
+        out.append(("order", "threads", 0, 1))
         for p in range(4):
             out.append(("order", "triples_small", p, 4))
     else:
@@ -63,6 +64,7 @@ def shards(tier):
                 out.append(("evt", mk, s0, s0 + 8))
         out.append(("order", "pairs", 0, 1))
         out.append(("order", "mapmut", 0, 1))
+        out.append(("order", "threads", 0, 1))
         for p in range(32):
             out.append(("order", "triples", p, 32))
     out.append(("len",))
@@ -383,6 +385,31 @@ def run_shard(shard):
                         n += 1
         res["evaluations"] += n
         sample(res, {"lengths": "1..64 except 16,24", "decodes": n})
+    elif kind == "order" and shard[1] == "threads":
+        # two threads decoding at once from a never-used library: thread A suspended after each library line of its decode in
+        # turn (fresh forked child per point), thread B decodes a set of frames meanwhile; both must match sequential decoding
+        from dalimc.core.preempt import one_preemption, _in_fork
+        from dalimc.core import repo
+        probes = [(16, 0x0300, 0), (16, 0x01E0, 6), (16, 0xC106, 0), (16, 0xA5FF, 0), (16, 0xFE80, 0), (24, 0x01FE30, 0), (24, 0xC10000, 0),
+                  (24, 0x010061, 0), (24, 0x000401, 0), (24, 0x0A8401, 0), (8, 0x55, 0), (16, 0x01FF, 8)]
+
+        def dec(bits, v, dt):
+            r = from_frame(FF(bits, v), devicetype=dt)
+            return (type(r).__module__, type(r).__name__, r.frame.as_integer, str(r))
+        want = _in_fork(lambda: [dec(*p) for p in probes])
+        for first in ((16, 0x01E0, 6), (24, 0x010061, 0), (24, 0x000401, 0)):
+            wa = _in_fork(lambda: dec(*first))
+            for r in one_preemption(lambda: dec(*first), lambda: [dec(*p) for p in probes], repo.REPO):
+                res["evaluations"] += 1
+                res["transitions"] += 1
+                case = {"order": [], "threads": list(first), "k": r["k"]}
+                if r["a"] != ("v", wa):
+                    add_violation(res, "C01:threads:first-decoder-wrong", f"thread A decoding {first} (suspended after its line {r['k']}): {r['a']}, sequentially {wa}", case)
+                if r["preempted"] and r["b"] != ("v", want):
+                    add_violation(res, "C01:threads:second-decoder-wrong", f"thread A decoding {first} suspended after its line {r['k']}; thread B decoded "
+                                  f"{r['b']}, sequentially {want}"[:900], case)
+            res["distinct"].add(("threads", first))
+        sample(res, {"order_mode": "two threads, one preemption at every library line of the first decode"})
     elif kind == "order" and shard[1] == "mapmut":
         _run_mapmut(res)
     elif kind == "order":
@@ -397,6 +424,8 @@ def replay(case):
     from dali.command import from_frame, Command
     from dali.frame import ForwardFrame as FF
     res = new_result()
+    if "threads" in case:
+        return run_shard(("order", "threads", 0, 1))["violations"]
     if "mapmut" in case:
         return run_shard(("order", "mapmut", 0, 1))["violations"]
     if "order" in case:
